@@ -12,6 +12,7 @@ from pathlib import Path
 from .. import common as C
 from .. import corpus
 from .. import progpool
+from .. import vmv
 
 PID = "C09"
 
@@ -132,11 +133,27 @@ def run(tier, replay=None):
             key = f"trace-rejected {rel} viol={far.get('viol')}"
             rep.violation(key, f"real execution of {rel} is not a behaviour of MSVM: first unmatched event #{far['l']} {ev}; model state {far.get('top')} violated={far.get('viol')}",
                           dict(source=rel, event_index=far["l"], event=ev, model=far, files={Path(rel).name: Path(tr["id"]).read_text()}))
+    # ---- the example corpus on the value machine: every instruction event (incl. the value on top of the operand
+    # stack) and every print must be what MSVMV does with the dumped code
+    def vm_group(group):
+        out = []
+        for src in group:
+            out.append((src,) + vmv.record(binary, src, max_events=8000 if tier == "quick" else 40000))
+        return out
+    vrec = [x for g in C.pmap(vm_group, corpus.by_directory(list(sources))) for x in g]
+    vcases = [c for _, c, _ in vrec if c is not None]
+    vres = vmv.validate(work / "vmv", vcases) if vcases else dict(accepted=set(), oom={}, stuck={}, xlate={}, tlc=None)
+    for cid, st_ in vres["stuck"].items():
+        rel = str(Path(cid).relative_to(work))
+        rep.violation(f"vm-trace-rejected {rel}", f"real execution of {rel} is not a behaviour of the value machine MSVMV: event #{st_['l']} {st_['event']}; machine at {st_['top']} frames={st_['fd']} activations={st_['ad']} status={st_['st']} {st_['why']}",
+                      dict(source=rel, verdict=st_, files={Path(rel).name: Path(cid).read_text()}))
     ops = collections.Counter(i["op"] for f in funcs for i in f["code"])
     deep_pops = sum(1 for f in funcs for i in f["code"] if i["op"] == "jmp_pop" and len(i["args"]) > 1 and i["args"][1].isdigit() and int(i["args"][1]) >= 2)
     rep.coverage = dict(
         states=ex.distinct + tv.distinct, transitions=ex.generated + tv.generated,
-        traces_validated_against_impl=len(traces), traces_accepted=len(traces) - nrej,
+        traces_validated_against_impl=len(traces) + len(vcases), traces_accepted=len(traces) - nrej,
+        vm_value_traces=len(vcases), vm_value_traces_accepted=len(vres["accepted"]), vm_value_out_of_model=len(vres["oom"]),
+        vm_value_out_of_model_reasons=sorted({o["why"] for o in vres["oom"].values()})[:12], vm_value_not_recorded=sum(1 for _, c, _ in vrec if c is None),
         functions_explored=len(funcs), programs=len(allsrc), programs_rejected_by_compiler=not_compiled,
         trace_events=sum(len(t["events"]) for t in traces),
         opcode_histogram=dict(ops.most_common()), jmp_pop_with_2_or_more_frames=deep_pops,
